@@ -239,6 +239,24 @@ TECH = "TLA+ design model (SodImpl) explored exhaustively by TLC, one generated 
 META = {
     "C01": dict(level="model_checking", technique=TECH,
                 text="TLC checks the refinement invariants (every read path = abstract map, under every cache/async setting) on all reachable states of the bounded design model; every transition of that model is executed on the real code and the recorded reads (Get twice, GetByUUID, Exist, Count, All incl. never-stored and deleted ids) are validated by TLC against the map rebuilt from acknowledged writes; seeded random histories extend to 8 objects and extreme values"),
+    "C02": dict(level="model_checking", technique=TECH,
+                text="after every transition of the bounded model (3 index values with ties, updates, deletes, reopen) the harness sweeps every operator x probe on every field; TLC evaluates Matches(q) of the specification over the same sweep's own listing and compares sets, lengths, duplicates; random And/Or chains and search-deletes on larger contents, indexed and plain struct"),
+    "C03": dict(level="model_checking", technique=TECH,
+                text="UniqueInv and 'rejected iff another object holds the canonical value' are invariants of the design model (TLC, exhaustive, 3 slots x 3 keys); on the real code TLC checks for every recorded single write that the class is the uniqueness error exactly when the rebuilt state has a conflict, and UniqueInv of the rebuilt state after every event, incl. reuse after delete/update and across reopen"),
+    "C04": dict(level="model_checking", technique=TECH,
+                text="ClosedDurable/SyncDurable are checked by TLC on the design model; every history of the bounded model gets close+reopen (with/without Create) or, in sync mode, abandonment at every position, with the complete sweep before and after compared by TLC (SameObs: listing, every lookup, every operator x probe, order by key, AssignIndex); random histories use 64-bit and nanosecond extremes"),
+    "C06": dict(level="model_checking", technique=TECH,
+                text="RefusedNoop (a refused call changes no variable) is an action property of the design model; on the real code every rejected write of every model transition is followed at once by the complete sweep, which TLC compares with the state rebuilt from acknowledged writes (reads, searches, order, Control when nothing can be pending)"),
+    "C07": dict(level="model_checking", technique=TECH,
+                text="BatchRefines (the code's validation rule lies between MustReject and MustAccept of the abstract statement) is checked by TLC on every reachable state x every batch of the bounded model; every such batch is executed on the real code and TLC checks n in {0,len}, mandatory rejection / acceptance, and, for Bulk, chunk-wise application in arrival order stopping at the first failing chunk"),
+    "C13": dict(level="model_checking", technique=TECH,
+                text="TLC checks on recorded eval/collect events that Collect of a single comparison or And-chain ending on an indexed field is an admissible prefix (LimitOK: non-increasing / Reverse non-decreasing, exactly min(n, matches), tie-agnostic), One = first element or the no-object error, AssignIndex = multiset of all values in non-increasing order"),
+    "C15": dict(level="model_checking", technique=TECH,
+                text="ValidOK is an invariant of the design model; on the real code the driver's own Transform/Validate hooks log their calls and the values they see: TLC checks Transform-before-Validate per object, that Validate saw the transformed and canonicalised values, invalid <=> rejected with the invalid class, stored value = transformed value, on the single, batch and chunked paths"),
+    "C16": dict(level="model_checking", technique=TECH,
+                text="TLC checks on recorded traces that every stored and listed value of a case-constrained field is the canonical spelling of what was supplied (Canon idempotent by construction of the code space, self-checked by the harness with strings.ToUpper/ToLower), that probes in any spelling find the canonical value (indexed, unindexed, nested), and that uniqueness is judged on canonical values"),
+    "C20": dict(level="model_checking", technique=TECH,
+                text="SnapshotOK is an invariant of the design model, which also enumerates (operator, probe) x up to 2 later writes; on the real code every search is evaluated twice at the same instant, one twin collected at once and one after the writes: TLC checks ids subset of the evaluation-time matches, no duplicates, every undeleted match present, an error only if a match was deleted"),
 }
 NOT_YET = {}
 
